@@ -11,6 +11,7 @@ import collections
 import hashlib
 import json
 import os
+import re
 import sys
 import time
 import traceback
@@ -180,6 +181,9 @@ def _match_known(known, prop, fam, v):
             continue
         if k.get('sig_prefix') and not v.get('sig', '').startswith(
                 k['sig_prefix']):
+            continue
+        if k.get('sig_regex') and not re.match(k['sig_regex'],
+                                               v.get('sig', '')):
             continue
         return k
     return None
